@@ -436,6 +436,15 @@ impl DnsCache {
             });
         }
 
+        // Also evict expired SRV, TXT and NSEC records that no PTR record points to
+        // (e.g. their PTR never arrived), so that they do not stay forever.
+        for records_map in [&mut self.srv, &mut self.txt, &mut self.nsec] {
+            records_map.retain(|_, records| {
+                records.retain(|r| !r.record.get_record().is_expired(now));
+                !records.is_empty()
+            });
+        }
+
         expired_instances
     }
 
